@@ -15,10 +15,17 @@ pub fn steps_of(bytes: &[u8]) -> Result<(u64, bool), String> {
     crate::history::fire_if_armed(bytes);
     let v = bytes.to_vec();
     verif_hooks::reset();
-    verif_hooks::set_limit(u64::MAX);
+    // far above the bound that is judged, but finite: a validator loop that never ends becomes a
+    // count (and a violation of the bound) instead of a run that has to be killed
+    let fuel = 64 * (SLOPE * bytes.len() as u64 + CONST);
+    verif_hooks::set_limit(fuel);
     let r = catch(|| DNSSector::new(v).and_then(|d| d.parse()).is_ok());
+    verif_hooks::set_limit(u64::MAX);
     let s = verif_hooks::steps();
-    r.map(|ok| (s, ok))
+    match r {
+        Err(pm) if pm.contains("fuel exhausted") => Ok((s.max(fuel), false)),
+        r => r.map(|ok| (s, ok)),
+    }
 }
 
 fn hdr(flags: u16, an: usize, ns: usize, ar: usize) -> Vec<u8> {
